@@ -74,11 +74,15 @@ def main():
       rc, o = sh("cargo nextest run --workspace --no-fail-fast --offline --test-threads 8 -E 'not binary(seeded_demo)' 2>&1 | tail -3", cwd=wt, env=env)
       res["verified"]["suite_with_change"] = o.strip().splitlines()[-1] if o.strip() else ""
       suite_ok = "164 passed" in o and "failed" not in o.split("Summary")[-1]
-      rc1, o1 = sh("cargo test --offline --test seeded_demo 2>&1 | tail -15", cwd=wt, env=env)
+      # build flavour the author names for the demonstration (round 14: some changes live in one flavour only)
+      dc = str((res.get("author") or {}).get("demo_cmd", ""))
+      flags = "".join(f for f in (" --no-default-features", " --release") if f.strip() in dc)
+      res["verified"]["demo_flags"] = flags.strip()
+      rc1, o1 = sh("cargo test --offline%s --test seeded_demo 2>&1 | tail -15" % flags, cwd=wt, env=env)
       demo_fails = rc1 != 0 or "FAILED" in o1 or "failed" in o1
       sh("git apply -R --index %s" % patch, cwd=wt)
       try:
-          rc2, o2 = sh("cargo test --offline --test seeded_demo 2>&1 | tail -5", cwd=wt, env=env)
+          rc2, o2 = sh("cargo test --offline%s --test seeded_demo 2>&1 | tail -5" % flags, cwd=wt, env=env)
       finally:
           sh("git apply --index %s" % patch, cwd=wt)
       demo_passes = "test result: ok" in o2 and "FAILED" not in o2
